@@ -70,7 +70,8 @@ class Oracle(C01.Oracle):
                     bad_ix = ix.fields[0] not in [b[0] for b in good]
                 if bad_ix:
                     report("invalid-value-index", words, (cls, payload), ["stderr", "message %s points at item %r, offending items %r" % (name, ix, [b[0] for b in good])])
-            elif any(b[0] is not None for b in good):
+            elif all(b[0] is not None for b in good):
+                # (a failure without an item index is right when one of the offending values comes from a variable)
                 report("invalid-value-index", words, (cls, payload), ["stderr", "message %s has no item index, offending items %r" % (name, [b[0] for b in good])])
         ex.sub_explore(lenient, leaf)
 
